@@ -122,6 +122,12 @@ def run(c, chk):
     # R13.8
     section_path(c, chk)
 
+    # R13.9: an include names its file the way a top-level parse does: the resolution rules of C17 are obligations here too
+    chk.rule('R13.9', 'the name given to include() is resolved by the rules of C17 (regular-file test, search order, tilde expansion)')
+    sub = report.SubCheck(chk, 'R13.9', 'C17')
+    c17.run(c, sub)
+    sub.done('file name resolution')
+
     # R13.5
     term = False
     ffe = c.lexer.funcs.get('yy_fatal_error')
